@@ -10,7 +10,7 @@ META = {
             "equal to the documented sum/mean whenever predictions and data are finite reals (sigma > 0). A runtime sweep of the real classes on special values "
             "cross-checks the encoding and replays counterexamples.",
     "note": "A-float: finite floats are exact reals (no rounding/overflow); numpy semantics of + - * / ** log sqrt sum mean isnan isreal all on NaN/inf are the engine's "
-            "models (validated by the sweep); sums are uninterpreted with extensionality (lemma assumed); CC/Mock: inv_cov = 1/yerr^2 as set by __init__ is assumed.",
+            "models (validated by the sweep); sums are uninterpreted with extensionality (lemma assumed); CC/Mock: inv_cov = 1/yerr^2 is established by the constructors (region `self.Hfid = .. self.inv_cov = ..` verified: vectors of the file's length, in file order, xvar = column + 1).",
     "technique": "contract-based deductive verification (AST->VC->SMT over an ExtReal encoding) + runtime sweep of the real classes",
 }
 CHECKER = "./bin/check C09 (pyvc on esr/fitting/likelihood.py -> z3)"
@@ -27,6 +27,13 @@ def check(run):
     for qual, mk, v in jobs:
         st, failed, eng = D.verify_function(run, "fitting/likelihood.py", qual, mk, timeout_ms=6000, note="model-call variants: array, scalar, raises")
         all_failed += failed
+    # the class invariant the CC / Mock contracts assume (inv_cov = 1 / yerr**2, vectors of the file's length, in file order) is established by the constructors
+    for cls_ in ("CCLikelihood", "MockLikelihood"):
+        st_i, f_i, _e = D.verify_function(run, "fitting/likelihood.py", cls_ + ".__init__", (lambda cls_=cls_: C.init_contract(cls_)), timeout_ms=8000, tag="data vectors",
+                                          note="region: from `self.Hfid = ..` to `self.inv_cov = ..`; np.genfromtxt(unpack=True) as the three columns of the file (A-ext)")
+        all_failed += f_i
+    if D.canary(run, "fitting/likelihood.py", "CCLikelihood.__init__", (lambda: C.init_contract("CCLikelihood"))) is False:
+        raise RuntimeError("canary verified: engine vacuous on CCLikelihood.__init__")
     can = D.canary(run, "fitting/likelihood.py", "GaussLikelihood.negloglike", lambda: C.negloglike_contract("GaussLikelihood", "array"))
     if can is False:
         raise RuntimeError("canary verified: engine vacuous on GaussLikelihood.negloglike")
@@ -41,7 +48,7 @@ def check(run):
         from checks.C14 import report_unproved
         report_unproved(run, all_failed, False, all_failed[0].fn)
     run.assume("A-float", "A-ext (numpy special-value semantics as modelled in pyvc/values.py, pyvc/models.py)",
-               "sum extensionality lemma (equal summands => equal sums)", "CC/Mock: inv_cov = 1/yerr**2 (set in __init__, not verified)",
+               "sum extensionality lemma (equal summands => equal sums)", "CC/Mock: inv_cov = 1/yerr**2 is established by the constructors (verified region); that no other code writes the data vectors between constructor and use is not verified (frame clause of negloglike: they are not modified there)",
                "'complex' means a non-zero imaginary part")
     run.trust("pyvc", "z3 5.1.0")
     return run.finish("proof", META["text"], CHECKER)
